@@ -132,6 +132,17 @@ def templates(tier="quick"):
             add("discovered_%s_with_%d_implicit" % (kind, nimp), [v0, v1], ["obj", "exe", "hdr"], extra_ops=ops5, init=[0, 1], depth=2,
                 tags=["discovered"])
 
+    # dyndep supplies an implicit OUTPUT that another statement, scanned earlier through a different path, had already
+    # seen as a source leaf: whether the cycle n -> z -> n is found must not depend on the entry point
+    dd5 = dyndep_text([("y", ["n"], [], False)])
+    stm5 = [Stmt("z", ex=["n"]), Stmt("y", ex=["z"], oo=["dd"], dyndep="dd", extra_outs=["n"]), Stmt("top", ex=["z", "y"])]
+    add("dyndep_output_on_scanned_leaf_present", [Variant("v0", stm5)], ["top", "y", "z"], files={"dd": dd5}, tags=["dyndep"])
+    add("dyndep_output_on_scanned_leaf_present_n_exists", [Variant("v0", stm5)], ["top", "y", "z"], files={"dd": dd5, "n": "pre-existing\n"},
+        tags=["dyndep"])
+    stm5b = [Stmt("dd", ex=["dd.in"], copy=True)] + stm5
+    add("dyndep_output_on_scanned_leaf_midbuild", [Variant("v0", stm5b)], ["top", "y", "z"], files={"dd.in": dd5, "n": "pre-existing\n"},
+        tags=["dyndep"])
+
     # tools that walk *recorded* dependencies (missingdeps, deps) on a graph whose cycle lies below the statement that
     # recorded them and does not contain the generator of the recorded header
     for kind, kw in (("gcc", {"deps": "gcc"}), ("msvc", {"deps": "msvc"})):
